@@ -1,0 +1,44 @@
+//go:build verif
+
+// Verification contracts for property C06 (a broker restart after any crash point loses no acknowledged record).
+// Comment-only; read by the verification engine (govc). This file contains no executable code.
+
+package storage
+
+// Small helpers of PartitionLog used through their signature only (no effect on log state, arbitrary result): semaphore gating,
+// logger selection, key formatting. This keeps RestoreFromS3 within the path budget of the engine.
+//@ func (l *PartitionLog) acquireS3
+//@   modular
+//@ func (l *PartitionLog) releaseS3
+//@   modular
+//@ func (l *PartitionLog) logger
+//@   modular
+//@ func (l *PartitionLog) indexKey
+//@   modular
+//@ func (l *PartitionLog) segmentPrefix
+//@   modular
+//@ func parseSegmentBaseOffset
+//@   modular
+
+// ---- segment footer: the last offset of a segment is read from bytes [4,12) when the magic "END!" is in place ----
+//@ func parseSegmentFooter
+//@   ensures [C06.footer_short_rejected] len(data) < 16 ==> err != nil
+//@   ensures [C06.footer_last_offset] err == nil ==> len(data) >= 16 && result0 == int64(be64(data, 4)) && data[12] == 'E' && data[13] == 'N' && data[14] == 'D' && data[15] == '!'
+
+// ---- RestoreFromS3 ----
+// gmiss: the index download of the segment being examined failed with "not found" (set at the errors.Is call of that iteration).
+//@ func (l *PartitionLog) RestoreFromS3
+//@   requires !isNilIface(l.s3) && l.indexEntries != nil
+//@   ghost gmiss bool = false
+//@   ghost gcommit bool = false
+//@   loop 1 invariant -1 <= rangeindex && rangeindex < len(objects)
+//@   loop 2 modifies gmiss
+//@   loop 2 invariant -1 <= rangeindex && rangeindex < len(found) && indexByBase != nil && l.nextOffset == old(l.nextOffset) && sameSlice(l.segments, old(l.segments))
+//@   at indexKey#1 before set gmiss = false
+//@   at Is#1 after set gmiss = ret0
+//@   at Lock#1 before set gcommit = true
+//@   ensures [C06.missing_index_never_blocks_restore] err != nil ==> !gmiss
+//@   ensures [C06.failed_restore_changes_nothing] err != nil ==> result0 == -1 && !gcommit && l.nextOffset == old(l.nextOffset) && sameSlice(l.segments, old(l.segments))
+//@   ensures [C06.nothing_restored_changes_nothing] err == nil && !gcommit ==> result0 == -1 && l.nextOffset == old(l.nextOffset) && sameSlice(l.segments, old(l.segments))
+//@   ensures [C06.next_offset_never_rewinds] err == nil && gcommit && result0 < 9223372036854775807 ==> l.nextOffset >= old(l.nextOffset)
+//@   ensures [C06.next_offset_past_last_restored] err == nil && gcommit && result0 < 9223372036854775807 ==> len(l.segments) > 0 && result0 == l.segments[len(l.segments)-1].lastOffset && l.nextOffset > result0
